@@ -6,6 +6,7 @@ import CimbaModel.Sim.Basic
 import CimbaModel.HashHeap.Orders
 import CimbaModel.Sim.S3Cond
 import CimbaModel.Sim.S3All
+import CimbaModel.Sim.S6Fwd
 
 namespace CimbaModel.Props.C13
 open CimbaModel CimbaModel.Sim CimbaModel.Event CimbaModel.Generated CimbaModel.HashHeap.SpecOrders
@@ -117,22 +118,209 @@ theorem remove_takes_exactly {q q' : KPQ} {k : Nat} (h : q'.Perm (KPQ.remove q k
     t ∈ q' ↔ t ∈ q ∧ t.key ≠ k := by
   rw [h.mem_iff]; exact mem_remove
 
-/-! ### forwarded signals — what the model (and the library) does
+/-! ### forwarded signals: a condition observing a guard is signalled — as a condition — whenever that guard is signalled
 
-KNOWN FINDING (not claimed as a property): a signal *forwarded* from an observed guard is a plain guard signal of the
-observer: `guardSignal` on `g` performs its own front step and then `guardSignal` — not `condSignal` — on every observer,
-so on an observing condition only the front waiter's predicate is evaluated. -/
+`guardSignal fuel w g` is `cmb_resourceguard_signal`; `fwdSignal fuel w o` the delivery of the forwarded signal to the
+observer `o` (the body of the loop of `forward_signal` in cmb_resourceguard.c); `hasHandler w o` says that `o` carries a
+handler for forwarded signals, i.e. is the guard of a condition (`cmb_condition_initialize` installs it);
+`frontStep w g gd` is the part of the signal that concerns `g`'s own waiting list (Props/C06, C08). -/
 
-theorem forwarded_is_plain_signal (fuel : Nat) (w : World) (g : Nat) (gd : Guard) (hg : w.guards[g]? = some gd) :
-    guardSignal (fuel + 1) w g = gd.observers.foldl (fun w o => guardSignal fuel w o) (frontStep w g gd) := by
-  rw [guardSignal_succ, hg]
+/-- a guard has a handler for forwarded signals exactly if it is the guard of a condition -/
+theorem handler_iff_condition_guard {w : World} {o : Nat} : hasHandler w o = true ↔ ∃ c : Nat, w.conds[c]? = some o :=
+  hasHandler_iff
 
-/-- so a condition registered as an observer is signalled (as a guard) whenever the observed list is signalled: with one
-    observer `o`, the signal of `g` is the signal of `o` applied after `g`'s own front step -/
-theorem observer_signalled (fuel : Nat) (w : World) (g o : Nat) (gd : Guard) (hg : w.guards[g]? = some gd)
-    (ho : gd.observers = [o]) :
-    guardSignal (fuel + 1) w g = guardSignal fuel (frontStep w g gd) o := by
-  rw [forwarded_is_plain_signal fuel w g gd hg, ho]; rfl
+/-- `forwarded_signal_is_condition_signal`: signalling a guard `g` performs `g`'s own front step and then delivers the
+    signal to every observer, in list order; the delivery to an observer that is the guard of a condition is exactly
+    `condSignal` on it — EVERY waiter is evaluated, not only the front one (`signal_exact` says what that does) —,
+    after which the signal travels on to that condition's own observers; the delivery to any other observer is a plain
+    guard signal of it -/
+theorem forwarded_signal_is_condition_signal (fuel : Nat) (w : World) (g : Nat) (gd : Guard) (hg : w.guards[g]? = some gd) :
+    guardSignal (fuel + 1) w g = gd.observers.foldl (fun w o => fwdSignal fuel w o) (frontStep w g gd) ∧
+    (∀ (w' : World) (o : Nat), hasHandler w' o = true →
+      fwdSignal (fuel + 1) w' o =
+        match w'.guards[o]? with
+        | none => w'
+        | some od => od.observers.foldl (fun w o' => fwdSignal fuel w o') (condSignal w' o).1) ∧
+    (∀ (w' : World) (o : Nat), hasHandler w' o = false → fwdSignal fuel w' o = guardSignal fuel w' o) := by
+  refine ⟨by rw [guardSignal_succ, hg], fun w' o h => fwdSignal_handler h fuel, fun w' o h => fwdSignal_plain h fuel⟩
+
+/-- the usual shape of a subscription (every scenario the loader builds has it): all observers of `g` are guards of
+    conditions that have no observers themselves. Then the complete signal of `g` is `g`'s own front step followed by
+    `condSignal` on every observing condition, in list order -/
+theorem signal_is_front_then_condition_signals {fuel : Nat} {w : World} {g : Nat} {gd : Guard} (hg : w.guards[g]? = some gd)
+    (hobs : ∀ o ∈ gd.observers, hasHandler w o = true ∧ Leaf w o) :
+    guardSignal (fuel + 2) w g = gd.observers.foldl (fun w o => (condSignal w o).1) (frontStep w g gd) :=
+  guardSignal_cond_observers hg hobs
+
+/-- one observing condition `o`, spelled out at full strength: the signal of `g` is `g`'s own front step and then exactly
+    the condition signal of `o` evaluated in the state the signal finds — one (aCond, SUCCESS) wake-up at the current time
+    with the waiter's current priority per waiter of `o` whose predicate holds, in heap-array order (`condSat w od`),
+    scheduled on top of what the front step leaves; `o`'s waiting list keeps exactly the waiters whose predicate does not
+    hold; no other component is touched (closed form) -/
+theorem forwarded_signal_exact {fuel : Nat} {w : World} {g o : Nat} {gd od : Guard} (hg : w.guards[g]? = some gd)
+    (hobs : gd.observers = [o]) (hh : hasHandler w o = true) (hl : Leaf w o) (hne : o ≠ g)
+    (hod : w.guards[o]? = some od) (hwfg : WF guard_queue_check gd.q) (hwf : WF guard_queue_check od.q)
+    (hc : od.q.count ≠ 0) :
+    ∃ q', WF guard_queue_check q' ∧ (abs q').Perm ((abs od.q).filter fun x => !evalDemand w (demandOf od x.key)) ∧
+      guardSignal (fuel + 2) w g = setGuardQ (pushAll (frontStep w g gd) (condWakes w (condSat w od))) o q' :=
+  guardSignal_one_cond_observer hg hobs hh hl hne hod hwfg hwf hc
+
+/-- `Observes w g o gd od`: guard `g` is observed by exactly the guard `o` of a condition, which has no observers of its own,
+    and all waiting lists are well-formed (true in every reachable state: `cond_lists_wellformed`).
+    `FwdWoken w W g o gd od` — what then holds of `W = signal w g`: (pending) the new events are the condition batch on top of
+    what `g`'s own front step leaves; (batch) every event of the batch is an (aCond, SUCCESS) wake-up at the current time
+    with its subject's current priority; (once) EXACTLY ONE per waiter of `o` whose predicate holds in `w`, none for anybody
+    else; (queue) `o`'s waiting list keeps exactly the waiters whose predicate does not hold; (others, procs, now, objs)
+    every other guard is as `g`'s front step leaves it, processes, clock, objects, flags and event waiters are untouched -/
+theorem observer_waiters_resumed_on_signal {w : World} {g o : Nat} {gd od : Guard} (h : Observes w g o gd od) :
+    FwdWoken w (signal w g) g o gd od := h.signal
+
+/-- the sentence of the property: every waiter `k` of the observing condition whose predicate holds at the moment the
+    observed guard is signalled has an (aCond, SUCCESS) wake-up pending at that very time, with its priority, and is off
+    the condition's list — wherever it stands in that list —; a waiter whose predicate does not hold stays queued -/
+theorem observer_waiter_resumed_iff_satisfied {w : World} {g o : Nat} {gd od : Guard} (h : Observes w g o gd od) {k : Nat}
+    (hk : k ∈ keys (abs od.q)) :
+    (evalDemand w (demandOf od k) = true →
+      (∃ e ∈ (signal w g).ev.pending, w.ev.counter < e.key ∧
+        e = mkEv e.key aCond k sigSuccess w.now (w.proc (k - 1)).prio) ∧
+      ∃ od', (signal w g).guards[o]? = some od' ∧ k ∉ keys (abs od'.q)) ∧
+    (evalDemand w (demandOf od k) = false → ∃ od', (signal w g).guards[o]? = some od' ∧ k ∈ keys (abs od'.q)) :=
+  h.signal.resumed hk
+
+/-! #### the built-in objects
+
+Every state change that can make a waiter's predicate true is `signal w1 g` with `w1` the recorded updated state
+(Props/C08); the observing condition is therefore signalled with the NEW state: `FwdWoken w1 …`, and the predicates on that
+object evaluate in `w1` as stated. (`w1` differs from `w` only in the object, its history and the holder's list of holdings:
+clock, events, flags and priorities are those of `w`.) -/
+
+/-- `observer_waiters_resumed_on_release`: a resource released by its holder — every waiter of the observing condition that
+    waits for this resource to be free (`cond 1 r _`) has a true predicate in the state the forwarded signal sees, hence
+    (by `FwdWoken.once` / `resumed`) exactly one wake-up, whatever its position in the condition's list -/
+theorem observer_waiters_resumed_on_release {w : World} {p : Pid} {r : Nat} {x : Res} (hx : w.res[r]? = some x)
+    (hh : x.holder = some p) {o : Nat} {gd od : Guard} (ho : Observes w x.guard o gd od) :
+    ∃ w1 : World, (execCmd w p (.release r)).1 = signal w1 x.guard ∧ FwdWoken w1 (signal w1 x.guard) x.guard o gd od ∧
+      (∀ b, evalDemand w1 (.cond 1 r b) = true) ∧
+      w1.now = w.now ∧ w1.ev = w.ev ∧ w1.flags = w.flags ∧ ∀ q, (w1.proc q).prio = (w.proc q).prio :=
+  release_fwd hx hh ho
+
+/-- … so: all of them are resumed by the release -/
+theorem release_resumes_all_waiters_for_the_resource {w : World} {p : Pid} {r : Nat} {x : Res} (hx : w.res[r]? = some x)
+    (hh : x.holder = some p) {o : Nat} {gd od : Guard} (ho : Observes w x.guard o gd od) {k b : Nat}
+    (hk : k ∈ keys (abs od.q)) (hd : demandOf od k = .cond 1 r b) :
+    (∃ e ∈ (execCmd w p (.release r)).1.ev.pending, w.ev.counter < e.key ∧
+      e = mkEv e.key aCond k sigSuccess w.now (w.proc (k - 1)).prio) ∧
+    ∃ od', (execCmd w p (.release r)).1.guards[o]? = some od' ∧ k ∉ keys (abs od'.q) := by
+  obtain ⟨w1, heq, hf, hev, hnow, hevq, _, hpr⟩ := release_fwd hx hh ho
+  rw [heq]
+  have := (hf.resumed hk).1 (by rw [hd]; exact hev b)
+  rw [hnow, hevq, hpr] at this
+  exact this
+
+/-- a resource dropped at the end / stop of its holder -/
+theorem observer_waiters_resumed_on_drop {w : World} (p : Pid) {r : Nat} {x : Res} (hx : w.res[r]? = some x)
+    {o : Nat} {gd od : Guard} (ho : Observes w x.guard o gd od) :
+    ∃ w1 : World, dropStep p w (.res r) = signal w1 x.guard ∧ FwdWoken w1 (signal w1 x.guard) x.guard o gd od ∧
+      (∀ b, evalDemand w1 (.cond 1 r b) = true) ∧ w1.now = w.now ∧ w1.ev = w.ev ∧ w1.procs = w.procs :=
+  dropRes_fwd p hx ho
+
+/-- units of a pool released by a holder -/
+theorem observer_waiters_resumed_on_pool_release {w : World} {p : Pid} {pl n : Nat} {x : Pool} (hx : w.pools[pl]? = some x)
+    (hn : ¬ (n = 0 ∨ n > heldAmount w pl p)) {o : Nat} {gd od : Guard} (ho : Observes w x.guard o gd od) :
+    ∃ w1 : World, (execCmd w p (.poolRelease pl n)).1 = signal w1 x.guard ∧ FwdWoken w1 (signal w1 x.guard) x.guard o gd od ∧
+      (∀ b, evalDemand w1 (.cond 2 pl b) = decide (x.cap - (x.inUse - n) ≥ b)) ∧
+      w1.now = w.now ∧ w1.ev = w.ev ∧ ∀ q, (w1.proc q).prio = (w.proc q).prio :=
+  poolRelease_fwd hx hn ho
+
+/-- the holder record of a pool dropped at the end / stop of the holder -/
+theorem observer_waiters_resumed_on_pool_drop {w : World} {pl : Nat} {p : Pid} {x : Pool} {i : Nat} {h' : HH} {bb : Bool}
+    (hx : w.pools[pl]? = some x) (hi : HashHeap.findIndex x.holders (p + 1) = .ok (i + 1))
+    (hr : HashHeap.remove holder_queue_check x.holders (p + 1) = .ok (h', bb))
+    {o : Nat} {gd od : Guard} (ho : Observes w x.guard o gd od) :
+    ∃ w1 : World, poolDropHolder w pl p = signal w1 x.guard ∧ FwdWoken w1 (signal w1 x.guard) x.guard o gd od ∧
+      (∀ n, evalDemand w1 (.cond 2 pl n) = decide (x.cap - (x.inUse - (x.holders.heap.getD (i + 1) {}).item.b) ≥ n)) ∧
+      w1.now = w.now ∧ w1.ev = w.ev ∧ w1.procs = w.procs :=
+  poolDrop_fwd hx hi hr ho
+
+/-- a put that fits into a buffer (condition observing the getters' guard) / a get the buffer can serve (condition observing
+    the putters' guard): the first signal of the call is that of the observed guard -/
+theorem observer_waiters_resumed_on_buffer {w : World} {p : Pid} {b rem : Nat} {x : Buf} (hx : w.bufs[b]? = some x)
+    {o : Nat} {gd od : Guard} :
+    (∀ left, x.cap - x.level ≥ rem → Observes w x.front o gd od →
+      ∃ w1 : World, (bufPutLoop w p b rem left).1 =
+          (if x.level + rem < x.cap then signal (signal w1 x.front) x.rear else signal w1 x.front) ∧
+        FwdWoken w1 (signal w1 x.front) x.front o gd od ∧
+        (∀ n, evalDemand w1 (.cond 3 b n) = decide (x.level + rem ≥ n)) ∧ w1.now = w.now ∧ w1.ev = w.ev ∧ w1.procs = w.procs) ∧
+    (∀ got, x.level ≥ rem → Observes w x.rear o gd od →
+      ∃ w1 : World, (bufGetLoop w p b rem got).1 =
+          (if x.level - rem > 0 then signal (signal w1 x.rear) x.front else signal w1 x.rear) ∧
+        FwdWoken w1 (signal w1 x.rear) x.rear o gd od ∧
+        (∀ n, evalDemand w1 (.cond 3 b n) = decide (x.level - rem ≥ n)) ∧ w1.now = w.now ∧ w1.ev = w.ev ∧ w1.procs = w.procs) :=
+  ⟨fun _ hl ho => bufPut_fwd hx hl ho, fun _ hl ho => bufGet_fwd hx hl ho⟩
+
+/-- a put into an object queue with space (condition observing the getters' guard) / a get from a non-empty one (condition
+    observing the putters' guard) -/
+theorem observer_waiters_resumed_on_object_queue {w : World} {p : Pid} {q : Nat} {x : OQ} (hx : w.oqs[q]? = some x)
+    {o : Nat} {gd od : Guard} :
+    (∀ obj, x.items.length < x.cap → Observes w x.front o gd od →
+      ∃ w1 : World, (oqPutLoop w p q obj).1 = signal w1 x.front ∧ FwdWoken w1 (signal w1 x.front) x.front o gd od ∧
+        (∀ n, evalDemand w1 (.cond 4 q n) = decide (x.items.length + 1 ≥ n)) ∧ w1.now = w.now ∧ w1.ev = w.ev ∧ w1.procs = w.procs) ∧
+    (∀ it rest, x.items = it :: rest → Observes w x.rear o gd od →
+      ∃ w1 : World, (oqGetLoop w p q).1 = signal w1 x.rear ∧ FwdWoken w1 (signal w1 x.rear) x.rear o gd od ∧
+        (∀ n, evalDemand w1 (.cond 4 q n) = decide (rest.length ≥ n)) ∧ w1.now = w.now ∧ w1.ev = w.ev ∧ w1.procs = w.procs) :=
+  ⟨fun _ hl ho => oqPut_fwd hx hl ho, fun _ _ hi ho => oqGet_fwd hx hi ho⟩
+
+/- non-vacuity 1 (the hypotheses of `release_resumes_all_waiters_for_the_resource` are satisfiable, with TWO waiters behind
+   each other): a resource (guard 0) held by process 0 and observed by a condition (guard 1) on whose well-formed list
+   processes 1 and 2 (keys 2 and 3) wait, both for the resource to be free -/
+example : ∃ (w : World) (x : Res) (gd od : Guard), w.res[0]? = some x ∧ x.holder = some 0 ∧ Observes w x.guard 1 gd od ∧
+    2 ∈ keys (abs od.q) ∧ 3 ∈ keys (abs od.q) ∧ demandOf od 2 = .cond 1 0 0 ∧ demandOf od 3 = .cond 1 0 0 := by
+  obtain ⟨s0, _, hwf0, habs0, _, hexp, _⟩ := HashHeap.init_spec (lt := guard_queue_check) 3 (by decide) (by decide)
+  have hc0 : s0.count = 0 := by rw [← HashHeap.abs_length, habs0]; rfl
+  obtain ⟨s1, _, hwf1, hperm1, _, _, hexp1, hc1⟩ := HashHeap.enqueue_abs hwf0 ⟨2, 0, 0, 0⟩ 2 0 5 (by simp) (by simp)
+    (by rw [habs0]; simp [keys]) (Or.inl (by rw [hc0]; exact HashHeap.two_pow_pos _))
+  have hk1 : keys (abs s1) = [2] := by
+    have := (hperm1.map (·.key)); rw [habs0] at this
+    exact List.perm_singleton.1 (by simpa [keys, KPQ.insert, norm] using this)
+  obtain ⟨s2, _, hwf2, hperm2, _⟩ := HashHeap.enqueue_abs hwf1 ⟨3, 0, 0, 0⟩ 3 0 0 (by simp) (by simp)
+    (by rw [hk1]; simp) (Or.inl (by
+      have : 2 ^ 3 ≤ 2 ^ s1.exp := Nat.pow_le_pow_right (by decide) (by omega)
+      omega))
+  have hmem : ∀ k, k ∈ keys (abs s2) ↔ k = 3 ∨ k ∈ keys (abs s1) := by
+    intro k
+    have := (hperm2.map (·.key)).mem_iff (a := k)
+    simpa [keys, KPQ.insert, norm] using this
+  let gd : Guard := { q := s0, observers := [1] }
+  let od : Guard := { q := s2, isCond := true, demands := [(3, .cond 1 0 0), (2, .cond 1 0 0)] }
+  refine ⟨{ guards := #[gd, od], res := #[{ holder := some 0, guard := 0 }], conds := #[1],
+            procs := #[{ status := .running, held := [.res 0] }, { prio := 5, status := .running },
+                       { status := .running }] },
+          { holder := some 0, guard := 0 }, gd, od, rfl, rfl, ?_, ?_, ?_, rfl, rfl⟩
+  · refine ⟨rfl, rfl, by simp [hasHandler], ?_, by decide, rfl, ?_⟩
+    · intro od' hod'
+      have : od' = od := by simpa using hod'.symm
+      rw [this]
+    · intro g' gd' hg'
+      match g', hg' with
+      | 0, h => have : gd' = gd := by simpa using h.symm
+                rw [this]; exact hwf0
+      | 1, h => have : gd' = od := by simpa using h.symm
+                rw [this]; exact hwf2
+      | n + 2, h => simp at h
+  · exact (hmem 2).2 (Or.inr (by rw [hk1]; simp))
+  · exact (hmem 3).2 (Or.inl rfl)
+
+/- non-vacuity 2 (computed): in `fwdWorld` processes 1 (priority 5) and 2 (priority 0) stand one behind the other on the
+   condition's list (keys 2, 3), both waiting for resource 0, which process 0 holds. Process 0 releases it: BOTH get their
+   (aCond, SUCCESS) wake-up at the current time with their own priority, the condition's list is empty afterwards, and
+   nobody waits on the resource's own guard (before the repair only key 2, the front waiter, was woken — through aRes) -/
+example :
+    (fwdWorld.guards[1]?.map fun gd => keys (abs gd.q)) = some [2, 3] ∧
+    ((execCmd fwdWorld 0 (.release 0)).1.ev.pending.map fun e => (e.key, e.item.a, e.item.b, decSig e.item.c, e.d, e.i)) =
+      [(2, aCond, 3, sigSuccess, 0, 0), (1, aCond, 2, sigSuccess, 0, 5)] ∧
+    ((execCmd fwdWorld 0 (.release 0)).1.guards[1]?.map fun gd => gd.q.count) = some 0 ∧
+    (execCmd fwdWorld 0 (.release 0)).1.fault = none := by
+  decide +kernel
 
 /- non-vacuity: a world with a condition whose well-formed queue holds a waiter (key 3 = process 2) exists -/
 example : ∃ (w : World) (gd : Guard), w.conds[0]? = some 0 ∧ w.guards[0]? = some gd ∧ WF guard_queue_check gd.q ∧
@@ -165,6 +353,25 @@ theorem cond_wakeup_owned {w0 w : World} (hr : Reach w0 w) (h0 : AllInv w0) {e :
       ¬ queued w g (p + 1) ∧ (∀ g', ¬ queued w g' (p + 1)) ∧
       ∀ e' ∈ w.ev.pending, isGrant e' → e'.item.b = p + 1 → e' = e :=
   ⟨(h0.reach hr).g.cond_owned he ha, (h0.reach hr).g.grant_owned he (Or.inr ha)⟩
+
+/-- in a reachable state the well-formedness part of `Observes` comes from the invariant: only the static shape of the
+    subscription (one observing condition without observers of its own) remains to be supplied -/
+theorem observes_of_reachable {w0 w : World} (hr : Reach w0 w) (h0 : AllInv w0) {g o : Nat} {gd od : Guard}
+    (hg : w.guards[g]? = some gd) (hobs : gd.observers = [o]) (hh : hasHandler w o = true) (hl : Leaf w o) (hne : o ≠ g)
+    (hod : w.guards[o]? = some od) : Observes w g o gd od :=
+  ⟨hg, hobs, hh, hl, hne, hod, (h0.reach hr).g.gw⟩
+
+/-- … hence, in every reachable state, a release of an observed resource resumes every waiter of the observing condition
+    that waits for that resource, wherever it stands in the condition's list -/
+theorem release_resumes_all_waiters_reachable {w0 w : World} (hr : Reach w0 w) (h0 : AllInv w0) {p : Pid} {r : Nat} {x : Res}
+    (hx : w.res[r]? = some x) (hh : x.holder = some p) {o : Nat} {gd od : Guard}
+    (hg : w.guards[x.guard]? = some gd) (hobs : gd.observers = [o]) (hc : hasHandler w o = true) (hl : Leaf w o)
+    (hne : o ≠ x.guard) (hod : w.guards[o]? = some od) {k b : Nat} (hk : k ∈ keys (abs od.q))
+    (hd : demandOf od k = .cond 1 r b) :
+    (∃ e ∈ (execCmd w p (.release r)).1.ev.pending, w.ev.counter < e.key ∧
+      e = mkEv e.key aCond k sigSuccess w.now (w.proc (k - 1)).prio) ∧
+    ∃ od', (execCmd w p (.release r)).1.guards[o]? = some od' ∧ k ∉ keys (abs od'.q) :=
+  release_resumes_all_waiters_for_the_resource hx hh (observes_of_reachable hr h0 hg hobs hc hl hne hod) hk hd
 
 /-- the waiters of a condition are suspended in `cond_wait` -/
 theorem cond_waiters_in_cond_wait {w0 w : World} (hr : Reach w0 w) (h0 : AllInv w0) {c g k : Nat}
